@@ -53,6 +53,9 @@ type trackOpts struct {
 func genTrackExt(r *rand.Rand, o trackOpts) *progTrack {
 	t := &progTrack{media: o.media, timescale: o.timescale, hasStss: o.hasStss, hasCtts: o.hasCtts, hasSdtp: o.hasSdtp}
 	usz := uint32(1 + r.Intn(30))
+	// empty samples (size 0: empty cues of a text / metadata track) in stretches long enough to fill whole chunks
+	emptyRuns := !o.uniform && r.Intn(6) == 0
+	emptyLeft := 0
 	for i := 0; i < o.n; i++ {
 		d := o.base
 		if o.irregular > 0 && r.Intn(o.irregular) == 0 {
@@ -75,6 +78,15 @@ func genTrackExt(r *rand.Rand, o trackOpts) *progTrack {
 		}
 		if o.uniform {
 			sz = usz
+		}
+		if emptyRuns {
+			if emptyLeft == 0 && r.Intn(5) == 0 {
+				emptyLeft = 1 + r.Intn(8)
+			}
+			if emptyLeft > 0 {
+				emptyLeft--
+				sz = 0
+			}
 		}
 		t.sizes = append(t.sizes, sz)
 		d2 := make([]byte, sz)
